@@ -85,6 +85,8 @@ structure Quirks where
 
 def Quirks.spec : Quirks := {}
 
+/-- the tree as found (all three deviations); `Quirks.ofSource` (Proofs/TxSource.lean) is what the
+    translator reads off the source on each run — the same until a fix lands -/
 def Quirks.code : Quirks :=
   { immediate := externalNames, selectInExecIgnored := true, blockingInExecNoResponse := true }
 
